@@ -103,7 +103,7 @@ PROPS["C01"] = dict(
             dict(name="mid", kind="gen", module="MannWhitney.tla", cfg="MW_gen.cfg",
                  consts=dict(MaxN=0, CrossN=0, Configs="ConfigsWide", StartT={"quick": "MidPoolsQuick", "thorough": "MidPoolsThorough"}), timeout={"quick": 900, "thorough": 5000}),
             dict(name="large", kind="gen", family="mwlarge", module="MWLarge.tla", cfg="MWLarge.cfg", workers=6,
-                      consts=dict(Sizes={"quick": "SizesQuick", "thorough": "SizesThorough"}), timeout={"quick": 600, "thorough": 3000}),
+                      consts=dict(Sizes={"quick": "SizesQuickBase", "thorough": "SizesThorough"}), timeout={"quick": 1200, "thorough": 3000}),
             dict(name="trace", kind="trace", module="MannWhitneyTrace.tla", cfg="MannWhitneyTrace.cfg",
                       consts=dict(DPMaxN={"quick": 12, "thorough": 18}),
                       record_args={"quick": ["-n", 24, "-calls", 5, "-max", 80], "thorough": ["-n", 480, "-calls", 8, "-max", 300]})],
@@ -120,7 +120,7 @@ PROPS["C02"] = dict(
             dict(name="lop", kind="gen", module="MannWhitney.tla", cfg="MW_gen.cfg",
                  consts=dict(MaxN=0, CrossN=0, Configs="ConfigsWide", StartT={"quick": "LopPoolsQuick", "thorough": "LopPoolsThorough"}), timeout={"quick": 900, "thorough": 5000}),
             dict(name="large", kind="gen", family="mwlarge", module="MWLarge.tla", cfg="MWLarge.cfg", workers=6,
-                      consts=dict(Sizes={"quick": "SizesQuick", "thorough": "SizesThorough"}), timeout={"quick": 600, "thorough": 3000})],
+                      consts=dict(Sizes={"quick": "SizesQuick", "thorough": "SizesThorough"}), timeout={"quick": 1500, "thorough": 4000})],
 )
 PROPS["C03"] = dict(
     family="mw", specdir="mw",
@@ -130,7 +130,7 @@ PROPS["C03"] = dict(
     stages=[dict(name="gen", kind="gen", module="MannWhitney.tla", cfg="MW_gen.cfg",
                  consts=dict(MaxN={"quick": 7, "thorough": 9}, CrossN={"quick": 6, "thorough": 7}, Configs="ConfigsSix", StartT="StartEmpty")),
             dict(name="large", kind="gen", family="mwlarge", module="MWLarge.tla", cfg="MWLarge.cfg", workers=6,
-                      consts=dict(Sizes={"quick": "SizesQuick", "thorough": "SizesThorough"}), timeout={"quick": 600, "thorough": 3000}),
+                      consts=dict(Sizes={"quick": "SizesQuickBase", "thorough": "SizesThorough"}), timeout={"quick": 1200, "thorough": 3000}),
             dict(name="trace", kind="trace", module="MannWhitneyTrace.tla", cfg="MannWhitneyTrace.cfg",
                       consts=dict(DPMaxN={"quick": 12, "thorough": 18}),
                       record_args={"quick": ["-n", 24, "-calls", 5, "-max", 80], "thorough": ["-n", 480, "-calls", 8, "-max", 300]})],
